@@ -328,6 +328,9 @@ class BaseInterpreter(Generic[TContext, TEvent]):
         #: Entry counter per state that owns `after` timers; stamps each
         #: `AfterEvent` so a stale expiry of an earlier activation is ignored.
         self._after_activations: Dict[str, int] = {}
+        #: Same idea for invoked services, keyed "<state id>::<invoke id>";
+        #: stamps the `DoneEvent`s an invocation produces.
+        self._invoke_activations: Dict[str, int] = {}
         self._actors: Dict[str, "BaseInterpreter[Any, Any]"] = {}
 
         # 🔗 Extensibility & Introspection
@@ -2609,6 +2612,16 @@ class BaseInterpreter(Generic[TContext, TEvent]):
             # 🤖 `onDone`/`onError` for invoked services.
             if isinstance(event, DoneEvent):
                 for inv in current.invoke:
+                    # 🔢 A result produced by an EARLIER activation of this
+                    #    state (left and re-entered while the notification sat
+                    #    in the queue) is stale: that invocation was cancelled.
+                    stamp = getattr(event, "activation", None)
+                    if stamp is not None and stamp != (
+                        self._invoke_activations.get(
+                            f"{current.id}::{inv.id}"
+                        )
+                    ):
+                        continue
                     if event.src == inv.id:
                         for t in inv.on_done + inv.on_error:
                             if t.event == event.type and _passes(t):
@@ -2918,6 +2931,10 @@ class BaseInterpreter(Generic[TContext, TEvent]):
                     f"Service '{invocation.src}' referenced by "
                     f"state '{state.id}' is not registered."
                 )
+            invoke_key = f"{state.id}::{invocation.id}"
+            self._invoke_activations[invoke_key] = (
+                self._invoke_activations.get(invoke_key, 0) + 1
+            )
             self._invoke_service(
                 invocation, service_callable, owner_id=state.id
             )
